@@ -197,6 +197,14 @@ impl Iterator for TaikoGradualDifficulty {
     }
 
     fn nth(&mut self, n: usize) -> Option<Self::Item> {
+        // As required by `Iterator::nth`, `None` is returned if there are not
+        // enough items left; all remaining items are consumed in that case.
+        if n >= self.len() {
+            while self.next().is_some() {}
+
+            return None;
+        }
+
         let mut take = cmp::min(n, self.len().saturating_sub(1));
 
         // The first two notes have no difficulty object but might add to combo
